@@ -23,7 +23,9 @@ RULE = ("operations: init(app, unit) / stop(app) / subroutines doing qalloc, qfr
         "Invariants after every operation: no two allocated virtual qubits share a physical qubit; mapped subset of used; "
         "used minus mapped subset of in-flight pair ids (equality when no response is pending); operations of application A "
         "leave every other application's registers, arrays, shared memory and unit module (and the other controller) "
-        "untouched; after stop nothing of the application remains and the same id registers again. Non-trivial = every "
+        "untouched; after stop nothing of the application remains and the same id registers again."
+        ' Early arrivals (a keep-response whose memory position is reserved before the matching recv is posted, possibly across a stop and re-registration); a second bounded search from two registered applications over an alphabet of blocking subroutines, deliveries and early arrivals; SDK-level walks (connections of one party opened and closed in any order with explicit and automatic application ids, allocating / freeing / writing) under the same invariants. '
+        "Non-trivial = every "
         "history with >= 2 applications active at some point; distinct = distinct operation sequence; 'states' = "
         "distinct abstract controller states visited.")
 ASSUMPTIONS = ["the link layer reserves a physical id before the response is consumed (in-flight ids are excluded from used == mapped while a response is pending)",
